@@ -109,6 +109,15 @@ def make_prog(seed, i):
         b = spec.Method("cd%d" % k, ("ref", None), [("f", ("cb", extra + [("opt", pa, "dip")], ("opt", pr_, "dip"), False))], ("unit",))
         op.methods += [a, b]
         pairs.append((a, b))
+    # ... and trait methods (foreign vtables): the same option crossing as an argument and as what the foreign implementation hands back
+    # (seed C10-h: the vtable slot of an `-> Option<T>` trait method typed with std's Option)
+    for k in range(1 + i % 2):
+        pa, pr_ = rng.choice(cbpl), rng.choice(cbpl)
+        mut = rng.random() < 0.3
+        a = spec.Method("ts%d" % k, ("ref", None), [("t", ("tr", "Ts%d" % k, [("ask", mut, [("prim", "u8"), ("opt", pa, "std")], ("opt", pr_, "std"))]))], ("unit",))
+        b = spec.Method("td%d" % k, ("ref", None), [("t", ("tr", "Td%d" % k, [("ask", mut, [("prim", "u8"), ("opt", pa, "dip")], ("opt", pr_, "dip"))]))], ("unit",))
+        op.methods += [a, b]
+        pairs.append((a, b))
     # the owner's own type spelled `Self` inside an option (a separate AST node that needs the same FFI-safe conversion), on a struct and
     # on an enum: by-value parameter and return, and inside a callback
     for owner in (st, en):
@@ -326,6 +335,15 @@ def main(tier, seed):
             for a, b in pairs:
                 h = open(os.path.join(d, "c", a.owner.name + ".h")).read()
                 da, db = decls(h, a.abi_name), decls(h, b.abi_name)
+                for m_, dl in ((a, da), (b, db)):
+                    # an `impl Trait` parameter: the twin traits differ in name only; their vtables (one header per trait) carry the option types
+                    for pn, pt in m_.params:
+                        if pt[0] == "tr":
+                            dl[:] = [l.replace(pt[1], "TRAIT") for l in dl]
+                            tp = os.path.join(d, "c", pt[1] + ".d.h")
+                            if os.path.exists(tp):
+                                mm = re.search(r"typedef struct %s_VTable \{(.*?)\} %s_VTable;" % (pt[1], pt[1]), open(tp).read(), re.S)
+                                dl += [re.sub(r"\s+", " ", l).strip() for l in (mm.group(1).splitlines() if mm else ["<no vtable typedef>"]) if l.strip()]
                 if da != db or not da:
                     res["decl_viol"].append((a.abi_name, b.abi_name, da, db))
         return res
